@@ -1,3 +1,657 @@
 import GnpyModel
-/- Property theorems for C20 (only the property theorems and their non-vacuity examples live here;
-   helper lemmas go to GnpyProofs/Lemmas). -/
+import GnpyProofs.Lemmas.Xls
+import GnpyProofs.Lemmas.Db
+/- Property theorems for C20 — spreadsheet inputs convert to the network and services they describe.
+   Model: GnpyModel/Xls.lean.  The wiring theorems are about structured names (`Name`); the rendering
+   of names to uid strings is compared with the code on every run (correspondence). -/
+namespace Gnpy.Xls
+open Gnpy
+
+/-! ### rejections -/
+
+/-- the sanity rules, as one decidable predicate on the table -/
+def Violates (t : Table) : Prop :=
+  badDuplicateCity t = true ∨ badLinkNode t = true ∨ badDuplicateLink t = true ∨ badUnreferenced t = true
+  ∨ badEqptNode t = true ∨ badEqptLink t = true ∨ badDuplicateEqpt t = true ∨ badDuplicateIla t = true
+
+theorem sanity_error_of_violates (t : Table) (h : Violates t) :
+    ∃ e, sanity t = .error e ∧ e.isTopology = true := by
+  unfold sanity
+  cases c1 : badDuplicateCity t
+  · cases c2 : badLinkNode t
+    · cases c3 : badDuplicateLink t
+      · cases c4 : badUnreferenced t
+        · cases c5 : badEqptNode t
+          · cases c6 : badEqptLink t
+            · cases c7 : badDuplicateEqpt t
+              · cases c8 : badDuplicateIla t
+                · simp [Violates, c1, c2, c3, c4, c5, c6, c7, c8] at h
+                · exact ⟨.duplicateIla, by simp [check, bind, Except.bind], rfl⟩
+              · exact ⟨.duplicateEqpt, by simp [check, bind, Except.bind], rfl⟩
+            · exact ⟨.eqptUnknownLink, by simp [check, bind, Except.bind], rfl⟩
+          · exact ⟨.eqptUnknownNode, by simp [check, bind, Except.bind], rfl⟩
+        · exact ⟨.unreferencedNode, by simp [check, bind, Except.bind], rfl⟩
+      · exact ⟨.duplicateLink, by simp [check, bind, Except.bind], rfl⟩
+    · exact ⟨.linkUnknownNode, by simp [check, bind, Except.bind], rfl⟩
+  · exact ⟨.duplicateCity, by simp [check, bind, Except.bind], rfl⟩
+
+/-- a table that passes violates nothing -/
+theorem sanity_ok_iff (t : Table) : sanity t = .ok () ↔ ¬ Violates t := by
+  constructor
+  · intro h hv
+    obtain ⟨e, he, _⟩ := sanity_error_of_violates t hv
+    rw [he] at h; cases h
+  · intro h
+    simp only [Violates, not_or, Bool.not_eq_true] at h
+    obtain ⟨c1, c2, c3, c4, c5, c6, c7, c8⟩ := h
+    simp [sanity, check, c1, c2, c3, c4, c5, c6, c7, c8, bind, Except.bind]
+
+/-- **duplicate, dangling or inconsistent rows are rejected with a topology error rather than
+converted**: a table that violates one of the sanity rules (duplicate city, link to an unknown
+city, duplicate or reversed-duplicate link, unreferenced site, Eqpt row naming an unknown site or a
+non-existing link, duplicate Eqpt row, ILA with two Eqpt rows) is never converted. -/
+theorem rejects_bad_rows (t : Table) (h : Violates t) :
+    ∃ e, convert t = .error e ∧ e.isTopology = true := by
+  obtain ⟨e, he, ht⟩ := sanity_error_of_violates t h
+  refine ⟨e, ?_, ht⟩
+  unfold convert
+  exact bind_error _ _ e he
+
+/-- non-vacuity: two Links rows A-B and B-A are a violation -/
+def dupTable : Table :=
+  { nodes := [mkNode [("city", .str "A")], mkNode [("city", .str "B")]],
+    links := [mkLink [("from_city", .str "A"), ("to_city", .str "B")],
+              mkLink [("from_city", .str "B"), ("to_city", .str "A")]],
+    eqpts := [], roadms := [] }
+example : Violates dupTable := by
+  right; right; left; decide
+
+/-! ### shape of a successful conversion -/
+
+/-- the node list after the degree correction -/
+def fixedNodes (t : Table) : List Node := t.nodes.map (correctType t.links)
+def fixedTable (t : Table) : Table := { t with nodes := fixedNodes t }
+
+theorem convert_ok (t0 : Table) (o : Out) (h : convert t0 = .ok o) :
+    ∃ roadmElems eastFibers westFibers eastEq westEq perCity,
+      sanity t0 = .ok () ∧
+      ((fixedNodes t0).filter (isType "roadm")).mapM (fun n => roadmElem n t0.roadms) = .ok roadmElems ∧
+      t0.links.mapM (fun l => do
+        fiberElem l.a l.z l.east (← nodeOf (fixedNodes t0) l.a) (← nodeOf (fixedNodes t0) l.z)) = .ok eastFibers ∧
+      t0.links.mapM (fun l => do
+        fiberElem l.z l.a l.west (← nodeOf (fixedNodes t0) l.a) (← nodeOf (fixedNodes t0) l.z)) = .ok westFibers ∧
+      t0.eqpts.mapM (fun e => do return eastEqptElem e (← nodeOf (fixedNodes t0) e.a)) = .ok eastEq ∧
+      t0.eqpts.mapM (fun e => do return westEqptElem e (← nodeOf (fixedNodes t0) e.a)) = .ok westEq ∧
+      (fixedNodes t0).mapM (connectionsAt (fixedTable t0)) = .ok perCity ∧
+      o.elements =
+        ((fixedNodes t0).filter (isType "roadm")).map (fun n => simpleElem (.trx n.city) n "Transceiver")
+        ++ roadmElems
+        ++ ((fixedNodes t0).filter (isType "fused")).map (fun n => simpleElem (.fusedW n.city) n "Fused")
+        ++ ((fixedNodes t0).filter (isType "fused")).map (fun n => simpleElem (.fusedE n.city) n "Fused")
+        ++ eastFibers ++ westFibers
+        ++ ((fixedNodes t0).filter (fun n => isType "ila" n && (eqptsAt t0.eqpts n.city).isEmpty)).map
+            (fun n => simpleElem (.ilaW n.city) n "Edfa" ilaOperational)
+        ++ ((fixedNodes t0).filter (fun n => isType "ila" n && (eqptsAt t0.eqpts n.city).isEmpty)).map
+            (fun n => simpleElem (.ilaE n.city) n "Edfa" ilaOperational)
+        ++ eastEq ++ westEq ∧
+      o.connections = perCity.flatten ++
+        (((fixedNodes t0).filter (isType "roadm")).map
+          (fun n => [(Name.trx n.city, Name.roadm n.city), (Name.roadm n.city, Name.trx n.city)])).flatten := by
+  unfold convert at h
+  simp only [bind_ok, pure_ok] at h
+  obtain ⟨u, hs, re, hre, ef, hef, wf, hwf, ee, hee, we, hwe, pc, hpc, rfl⟩ := h
+  cases u
+  exact ⟨re, ef, wf, ee, we, pc, hs, hre, hef, hwf, hee, hwe, hpc, rfl, rfl⟩
+
+/-- what a fibre element says: type, type_variety and params of one side of a Links row -/
+def IsFiberOf (e : Elem) (src dst : String) (s : LinkSide) : Prop :=
+  e.name = .fiber src dst s.cable ∧ e.body.get? "type" = some (.str "Fiber") ∧
+  e.body.get? "type_variety" = some s.fiber ∧ ∃ p, fiberParams s = .ok p ∧ e.body.get? "params" = some (.obj p)
+
+theorem fiberElem_isFiberOf (src dst : String) (s : LinkSide) (na nb : Node) (e : Elem)
+    (h : fiberElem src dst s na nb = .ok e) : IsFiberOf e src dst s := by
+  simp only [fiberElem, bind_ok, pure_ok] at h
+  obtain ⟨p, hp, rfl⟩ := h
+  exact ⟨rfl, by simp [Dict.get?], by simp [Dict.get?], p, hp, by simp [Dict.get?]⟩
+
+/-- **for every link one fibre per direction with the sheet's values**: each Links row `l` yields a
+fibre `l.a → l.z` built from the east cells and a fibre `l.z → l.a` built from the west cells (which
+`mkLink` has already defaulted to the east ones, see `link_west_defaults_to_east`). -/
+theorem both_directions (t0 : Table) (o : Out) (h : convert t0 = .ok o) (l : Link) (hl : l ∈ t0.links) :
+    (∃ e ∈ o.elements, IsFiberOf e l.a l.z l.east) ∧ (∃ e ∈ o.elements, IsFiberOf e l.z l.a l.west) := by
+  obtain ⟨re, ef, wf, ee, we, pc, _, _, hef, hwf, _, _, _, hel, _⟩ := convert_ok t0 o h
+  constructor
+  · obtain ⟨y, hy, hf⟩ := mapM_ok_mem _ _ _ hef l hl
+    simp only [bind_ok] at hf
+    obtain ⟨na, _, nb, _, hf⟩ := hf
+    exact ⟨y, by rw [hel]; simp [List.mem_append, hy], fiberElem_isFiberOf _ _ _ _ _ _ hf⟩
+  · obtain ⟨y, hy, hf⟩ := mapM_ok_mem _ _ _ hwf l hl
+    simp only [bind_ok] at hf
+    obtain ⟨na, _, nb, _, hf⟩ := hf
+    exact ⟨y, by rw [hel]; simp [List.mem_append, hy], fiberElem_isFiberOf _ _ _ _ _ _ hf⟩
+
+/-- **west defaults to east**: a Links row whose west cells are all empty describes the same fibre
+in both directions (and each single empty west cell takes the east value). -/
+theorem link_west_defaults_to_east (kw : Dict)
+    (h : ∀ k ∈ ["west_distance", "west_fiber", "west_lineic", "west_con_in", "west_con_out", "west_pmd", "west_cable"],
+      kw.get? k = none ∨ kw.get? k = some .null ∨ kw.get? k = some (.str "")) :
+    (mkLink kw).west = (mkLink kw).east := by
+  have hc : ∀ k d, (kw.get? k = none ∨ kw.get? k = some .null ∨ kw.get? k = some (.str "")) → cleanGet kw k d = d := by
+    intro k d hk
+    rcases hk with hk | hk | hk <;> simp [cleanGet, hk]
+  simp only [mkLink]
+  rw [hc "west_distance" _ (h _ (by simp)), hc "west_fiber" _ (h _ (by simp)), hc "west_lineic" _ (h _ (by simp)),
+    hc "west_con_in" _ (h _ (by simp)), hc "west_con_out" _ (h _ (by simp)), hc "west_pmd" _ (h _ (by simp)),
+    hc "west_cable" _ (h _ (by simp))]
+  simp [asStr, pyStr]
+
+/-- a west cell that is filled is used -/
+theorem link_west_cell_used (kw : Dict) (v : J) (h : kw.get? "west_distance" = some v) (h1 : v ≠ .null) (h2 : v ≠ .str "") :
+    (mkLink kw).west.distance = v := by
+  cases v <;> simp_all [mkLink, cleanGet]
+
+/-! ### site shapes and end points -/
+
+theorem mem_elements_of (t0 : Table) (o : Out) (h : convert t0 = .ok o) :
+    (∀ n ∈ fixedNodes t0, isType "roadm" n = true →
+        (∃ e ∈ o.elements, e.name = .trx n.city ∧ e.body.get? "type" = some (.str "Transceiver")) ∧
+        (∃ e ∈ o.elements, e.name = .roadm n.city)) ∧
+    (∀ n ∈ fixedNodes t0, isType "fused" n = true →
+        (∃ e ∈ o.elements, e.name = .fusedW n.city ∧ e.body.get? "type" = some (.str "Fused")) ∧
+        (∃ e ∈ o.elements, e.name = .fusedE n.city ∧ e.body.get? "type" = some (.str "Fused"))) ∧
+    (∀ n ∈ fixedNodes t0, isType "ila" n = true → (eqptsAt t0.eqpts n.city).isEmpty = true →
+        (∃ e ∈ o.elements, e.name = .ilaW n.city ∧ e.body.get? "type" = some (.str "Edfa")) ∧
+        (∃ e ∈ o.elements, e.name = .ilaE n.city ∧ e.body.get? "type" = some (.str "Edfa"))) ∧
+    (∀ q ∈ t0.eqpts, (∃ e ∈ o.elements, e.name = .eqE q.a q.z) ∧ (∃ e ∈ o.elements, e.name = .eqW q.a q.z)) := by
+  obtain ⟨re, ef, wf, ee, we, pc, _, hre, _, _, hee, hwe, _, hel, _⟩ := convert_ok t0 o h
+  refine ⟨?_, ?_, ?_, ?_⟩
+  · intro n hn ht
+    have hmem : n ∈ (fixedNodes t0).filter (isType "roadm") := List.mem_filter.2 ⟨hn, ht⟩
+    constructor
+    · refine ⟨simpleElem (.trx n.city) n "Transceiver", ?_, rfl, by simp [simpleElem, Dict.get?]⟩
+      rw [hel]
+      simp only [List.mem_append, List.mem_map]
+      exact Or.inl (Or.inl (Or.inl (Or.inl (Or.inl (Or.inl (Or.inl (Or.inl (Or.inl ⟨n, hmem, rfl⟩))))))))
+    · obtain ⟨y, hy, hf⟩ := mapM_ok_mem _ _ _ hre n hmem
+      refine ⟨y, ?_, roadmElem_name _ _ _ hf⟩
+      rw [hel]
+      simp only [List.mem_append]
+      exact Or.inl (Or.inl (Or.inl (Or.inl (Or.inl (Or.inl (Or.inl (Or.inl (Or.inr hy))))))))
+  · intro n hn ht
+    have hmem : n ∈ (fixedNodes t0).filter (isType "fused") := List.mem_filter.2 ⟨hn, ht⟩
+    constructor
+    · refine ⟨simpleElem (.fusedW n.city) n "Fused", ?_, rfl, by simp [simpleElem, Dict.get?]⟩
+      rw [hel]
+      simp only [List.mem_append, List.mem_map]
+      exact Or.inl (Or.inl (Or.inl (Or.inl (Or.inl (Or.inl (Or.inl (Or.inr ⟨n, hmem, rfl⟩)))))))
+    · refine ⟨simpleElem (.fusedE n.city) n "Fused", ?_, rfl, by simp [simpleElem, Dict.get?]⟩
+      rw [hel]
+      simp only [List.mem_append, List.mem_map]
+      exact Or.inl (Or.inl (Or.inl (Or.inl (Or.inl (Or.inl (Or.inr ⟨n, hmem, rfl⟩))))))
+  · intro n hn ht he
+    have hmem : n ∈ (fixedNodes t0).filter (fun n => isType "ila" n && (eqptsAt t0.eqpts n.city).isEmpty) :=
+      List.mem_filter.2 ⟨hn, by simp [ht, he]⟩
+    constructor
+    · refine ⟨simpleElem (.ilaW n.city) n "Edfa" ilaOperational, ?_, rfl, by simp [simpleElem, Dict.get?]⟩
+      rw [hel]
+      simp only [List.mem_append, List.mem_map]
+      exact Or.inl (Or.inl (Or.inl (Or.inr ⟨n, hmem, rfl⟩)))
+    · refine ⟨simpleElem (.ilaE n.city) n "Edfa" ilaOperational, ?_, rfl, by simp [simpleElem, Dict.get?]⟩
+      rw [hel]
+      simp only [List.mem_append, List.mem_map]
+      exact Or.inl (Or.inl (Or.inr ⟨n, hmem, rfl⟩))
+  · intro q hq
+    constructor
+    · obtain ⟨y, hy, hf⟩ := mapM_ok_mem _ _ _ hee q hq
+      simp only [bind_ok, pure_ok] at hf
+      obtain ⟨nd, _, rfl⟩ := hf
+      refine ⟨eastEqptElem q nd, ?_, by unfold eastEqptElem; rfl⟩
+      rw [hel]
+      simp only [List.mem_append]
+      exact Or.inl (Or.inr hy)
+    · obtain ⟨y, hy, hf⟩ := mapM_ok_mem _ _ _ hwe q hq
+      simp only [bind_ok, pure_ok] at hf
+      obtain ⟨nd, _, rfl⟩ := hf
+      refine ⟨westEqptElem q nd, ?_, by unfold westEqptElem; rfl⟩
+      rw [hel]
+      simp only [List.mem_append]
+      exact Or.inr hy
+
+/-- where the element between a fibre and the next hop can come from -/
+def MidOK (t : Table) (n : Node) (nm : Name) : Prop :=
+  (∃ e ∈ t.eqpts, nm = .eqE e.a e.z ∨ nm = .eqW e.a e.z) ∨
+  (isType "ila" n = true ∧ (eqptsAt t.eqpts n.city).isEmpty = true ∧ (nm = .ilaE n.city ∨ nm = .ilaW n.city)) ∨
+  (isType "fused" n = true ∧ (nm = .fusedE n.city ∨ nm = .fusedW n.city))
+
+theorem ilaLoop_ok (dest : String) : ∀ (es : List Eqpt) (east : Bool) (acc : Option Name) (nm : Name),
+    ilaLoop dest es east acc = some nm → acc = some nm ∨ ∃ e ∈ es, nm = .eqE e.a e.z ∨ nm = .eqW e.a e.z
+  | [], east, acc, nm, h => by simp only [ilaLoop] at h; exact Or.inl h
+  | e :: es, east, acc, nm, h => by
+    simp only [ilaLoop] at h
+    rcases ilaLoop_ok dest es _ _ nm h with h1 | ⟨e', he', h2⟩
+    · right
+      refine ⟨e, List.mem_cons_self, ?_⟩
+      simp only [Option.some.injEq] at h1
+      rw [← h1]
+      split <;> split <;> simp
+    · exact Or.inr ⟨e', List.mem_cons_of_mem _ he', h2⟩
+
+theorem eqptsAt_subset (eqpts : List Eqpt) (c : String) (e : Eqpt) (h : e ∈ eqptsAt eqpts c) : e ∈ eqpts :=
+  (List.mem_filter.1 h).1
+
+theorem eqptIn_ok (t : Table) (n : Node) (dest : String) (east : Bool) (nm : Name)
+    (h : eqptIn t n dest east = some nm) : MidOK t n nm := by
+  unfold eqptIn at h
+  simp only at h
+  by_cases hf : (lower n.ntype == "fused") = true
+  · simp only [hf, if_true, Option.some.injEq] at h
+    right; right
+    refine ⟨hf, ?_⟩
+    cases east <;> simp_all
+  · simp only [hf, Bool.false_eq_true, if_false] at h
+    by_cases he : (eqptsAt t.eqpts n.city).isEmpty = true
+    · simp only [he, Bool.not_true, Bool.false_eq_true, if_false] at h
+      split at h
+      · rename_i hi
+        right; left
+        refine ⟨hi, he, ?_⟩
+        simp only [Option.some.injEq] at h
+        cases east <;> simp_all
+      · cases h
+    · simp only [he, Bool.not_false, if_true] at h
+      left
+      split at h
+      · -- roadm: last matching row
+        cases hl : ((eqptsAt t.eqpts n.city).filter (fun e => e.z == dest)).getLast? with
+        | none => simp [hl] at h
+        | some e =>
+          simp only [hl, Option.map_some, Option.some.injEq] at h
+          have hm : e ∈ (eqptsAt t.eqpts n.city).filter (fun e => e.z == dest) := List.mem_of_getLast? hl
+          refine ⟨e, eqptsAt_subset _ _ _ (List.mem_filter.1 hm).1, ?_⟩
+          cases east <;> simp_all
+      · split at h
+        · rcases ilaLoop_ok dest _ _ _ nm h with h1 | ⟨e, he', h2⟩
+          · cases h1
+          · exact ⟨e, eqptsAt_subset _ _ _ he', h2⟩
+        · cases h
+
+/-- the names a connection built at site `n` can mention -/
+def EndOK (t : Table) (n : Node) (nm : Name) : Prop :=
+  (nm = .roadm n.city ∧ isType "roadm" n = true) ∨
+  (∃ l ∈ t.links, nm = .fiber l.a l.z l.east.cable ∨ nm = .fiber l.z l.a l.west.cable) ∨
+  MidOK t n nm
+
+theorem connectEqpt_ends (t : Table) (n : Node) (src dst : Name) (mid : Option Name)
+    (hs : EndOK t n src) (hd : EndOK t n dst) (hm : ∀ m, mid = some m → EndOK t n m) :
+    ∀ c ∈ connectEqpt src mid dst, EndOK t n c.1 ∧ EndOK t n c.2 := by
+  intro c hc
+  cases mid with
+  | none =>
+    simp only [connectEqpt, List.mem_singleton] at hc
+    subst hc; exact ⟨hs, hd⟩
+  | some m =>
+    simp only [connectEqpt, List.mem_cons, List.not_mem_nil, or_false] at hc
+    rcases hc with rfl | rfl
+    · exact ⟨hs, hm m rfl⟩
+    · exact ⟨hm m rfl, hd⟩
+
+theorem fiberLink_end (t : Table) (n : Node) (src dst : String) (nm : Name)
+    (h : fiberLink t.links src dst = .ok nm) : EndOK t n nm := by
+  obtain ⟨l, hl, h⟩ := fiberLink_mem _ _ _ _ h
+  exact Or.inr (Or.inl ⟨l, hl, h⟩)
+
+theorem connectionsAt_ends (t : Table) (n : Node) (l : List (Name × Name))
+    (h : connectionsAt t n = .ok l) : ∀ c ∈ l, EndOK t n c.1 ∧ EndOK t n c.2 := by
+  unfold connectionsAt at h
+  simp only at h
+  split at h
+  · simp only [bind_ok, pure_ok] at h
+    obtain ⟨o0, _, o1, _, f0, hf0, t0, ht0, f1, hf1, t1, ht1, rfl⟩ := h
+    intro c hc
+    rcases List.mem_append.1 hc with hc | hc
+    · exact connectEqpt_ends t n _ _ _ (fiberLink_end t n _ _ _ hf0) (fiberLink_end t n _ _ _ ht0)
+        (fun m hm => Or.inr (Or.inr (eqptIn_ok t n _ _ m hm))) c hc
+    · exact connectEqpt_ends t n _ _ _ (fiberLink_end t n _ _ _ hf1) (fiberLink_end t n _ _ _ ht1)
+        (fun m hm => Or.inr (Or.inr (eqptIn_ok t n _ _ m hm))) c hc
+  · split at h
+    · rename_i hr
+      simp only [bind_ok, pure_ok] at h
+      obtain ⟨parts, hp, rfl⟩ := h
+      intro c hc
+      obtain ⟨part, hpart, hcp⟩ := List.mem_flatten.1 hc
+      obtain ⟨o, _, ho⟩ := mapM_ok_mem_rev _ _ _ hp part hpart
+      simp only [bind_ok, pure_ok] at ho
+      obtain ⟨fo, hfo, fi, hfi, rfl⟩ := ho
+      have hro : EndOK t n (.roadm n.city) := Or.inl ⟨rfl, hr⟩
+      rcases List.mem_append.1 hcp with hc' | hc'
+      · exact connectEqpt_ends t n _ _ _ hro (fiberLink_end t n _ _ _ hfo)
+          (fun m hm => Or.inr (Or.inr (eqptIn_ok t n _ _ m hm))) c hc'
+      · exact connectEqpt_ends t n _ _ _ (fiberLink_end t n _ _ _ hfi) hro
+          (fun m hm => Or.inr (Or.inr (eqptIn_ok t n _ _ m hm))) c hc'
+    · simp only [pure_ok] at h
+      subst h
+      intro c hc; cases hc
+
+/-- **all connection endpoints exist**: in every converted workbook both ends of every connection
+are elements of the document. -/
+theorem endpoints_exist (t0 : Table) (o : Out) (h : convert t0 = .ok o) :
+    ∀ c ∈ o.connections, (∃ e ∈ o.elements, e.name = c.1) ∧ (∃ e ∈ o.elements, e.name = c.2) := by
+  obtain ⟨hroadm, hfused, hila, heq⟩ := mem_elements_of t0 o h
+  have hfib := both_directions t0 o h
+  obtain ⟨re, ef, wf, ee, we, pc, _, _, _, _, _, _, hpc, _, hcx⟩ := convert_ok t0 o h
+  have endok : ∀ n ∈ fixedNodes t0, ∀ nm, EndOK (fixedTable t0) n nm → ∃ e ∈ o.elements, e.name = nm := by
+    intro n hn nm hnm
+    rcases hnm with ⟨rfl, hr⟩ | ⟨l, hl, h1 | h1⟩ | ⟨q, hq, h1 | h1⟩ | ⟨hi, he, h1 | h1⟩ | ⟨hf, h1 | h1⟩
+    · exact (hroadm n hn hr).2
+    · obtain ⟨e, he, hfo⟩ := (hfib l hl).1
+      exact ⟨e, he, by rw [h1]; exact hfo.1⟩
+    · obtain ⟨e, he, hfo⟩ := (hfib l hl).2
+      exact ⟨e, he, by rw [h1]; exact hfo.1⟩
+    · obtain ⟨e, he, hn'⟩ := (heq q hq).1
+      exact ⟨e, he, by rw [h1]; exact hn'⟩
+    · obtain ⟨e, he, hn'⟩ := (heq q hq).2
+      exact ⟨e, he, by rw [h1]; exact hn'⟩
+    · obtain ⟨e, he', hn', _⟩ := (hila n hn hi he).2
+      exact ⟨e, he', by rw [h1]; exact hn'⟩
+    · obtain ⟨e, he', hn', _⟩ := (hila n hn hi he).1
+      exact ⟨e, he', by rw [h1]; exact hn'⟩
+    · obtain ⟨e, he', hn', _⟩ := (hfused n hn hf).2
+      exact ⟨e, he', by rw [h1]; exact hn'⟩
+    · obtain ⟨e, he', hn', _⟩ := (hfused n hn hf).1
+      exact ⟨e, he', by rw [h1]; exact hn'⟩
+  intro c hc
+  rw [hcx] at hc
+  rcases List.mem_append.1 hc with hc | hc
+  · obtain ⟨part, hpart, hcp⟩ := List.mem_flatten.1 hc
+    obtain ⟨n, hn, hcn⟩ := mapM_ok_mem_rev _ _ _ hpc part hpart
+    obtain ⟨h1, h2⟩ := connectionsAt_ends _ n part hcn c hcp
+    exact ⟨endok n hn _ h1, endok n hn _ h2⟩
+  · obtain ⟨part, hpart, hcp⟩ := List.mem_flatten.1 hc
+    obtain ⟨n, hn, rfl⟩ := List.mem_map.1 hpart
+    obtain ⟨hn1, hn2⟩ := List.mem_filter.1 hn
+    obtain ⟨⟨e1, he1, hn1', _⟩, ⟨e2, he2, hn2'⟩⟩ := hroadm n hn1 hn2
+    simp only [List.mem_cons, List.not_mem_nil, or_false] at hcp
+    rcases hcp with rfl | rfl
+    · exact ⟨⟨e1, he1, hn1'⟩, ⟨e2, he2, hn2'⟩⟩
+    · exact ⟨⟨e2, he2, hn2'⟩, ⟨e1, he1, hn1'⟩⟩
+
+/-- **one ROADM plus transceiver per ROADM site**, connected in both directions -/
+theorem roadm_site_shape (t0 : Table) (o : Out) (h : convert t0 = .ok o) (n : Node)
+    (hn : n ∈ fixedNodes t0) (ht : isType "roadm" n = true) :
+    (∃ e ∈ o.elements, e.name = .trx n.city ∧ e.body.get? "type" = some (.str "Transceiver")) ∧
+    (∃ e ∈ o.elements, e.name = .roadm n.city) ∧
+    (Name.trx n.city, Name.roadm n.city) ∈ o.connections ∧ (Name.roadm n.city, Name.trx n.city) ∈ o.connections := by
+  obtain ⟨hroadm, _, _, _⟩ := mem_elements_of t0 o h
+  obtain ⟨_, _, _, _, _, _, _, _, _, _, _, _, _, _, hcx⟩ := convert_ok t0 o h
+  refine ⟨(hroadm n hn ht).1, (hroadm n hn ht).2, ?_, ?_⟩ <;>
+  · rw [hcx]
+    apply List.mem_append_right
+    apply List.mem_flatten.2
+    exact ⟨_, List.mem_map.2 ⟨n, List.mem_filter.2 ⟨hn, ht⟩, rfl⟩, by simp⟩
+
+/-- **a site declared ILA whose degree is not 2 is converted as a ROADM** -/
+theorem degree_ne_2_becomes_roadm (links : List Link) (n : Node) (h1 : lower n.ntype = "ila")
+    (h2 : degree links n.city ≠ 2) : isType "roadm" (correctType links n) = true := by
+  simp only [correctType, h1, beq_self_eq_true, Bool.true_and, bne_iff_ne, ne_eq, h2, not_false_eq_true, if_true, isType]
+  decide +kernel
+
+/-- fused sites give two Fused elements, ILA sites without Eqpt row two untyped amplifiers -/
+theorem ila_fused_site_shape (t0 : Table) (o : Out) (h : convert t0 = .ok o) (n : Node) (hn : n ∈ fixedNodes t0) :
+    (isType "fused" n = true →
+      (∃ e ∈ o.elements, e.name = .fusedW n.city ∧ e.body.get? "type" = some (.str "Fused")) ∧
+      (∃ e ∈ o.elements, e.name = .fusedE n.city ∧ e.body.get? "type" = some (.str "Fused"))) ∧
+    (isType "ila" n = true → (eqptsAt t0.eqpts n.city).isEmpty = true →
+      (∃ e ∈ o.elements, e.name = .ilaW n.city ∧ e.body.get? "type" = some (.str "Edfa")) ∧
+      (∃ e ∈ o.elements, e.name = .ilaE n.city ∧ e.body.get? "type" = some (.str "Edfa"))) := by
+  obtain ⟨_, hfused, hila, _⟩ := mem_elements_of t0 o h
+  exact ⟨hfused n hn, hila n hn⟩
+
+/-! ### amplifier settings face the named neighbour -/
+
+/-- the in-line element chosen at an ILA site with exactly one Eqpt row `q`, for the direction flag
+relative to the first neighbour `o0`: the row's EAST element serves the direction that leaves
+towards `q.z`, its WEST element the direction that arrives from `q.z` -/
+theorem ila_direction_rule (t : Table) (n : Node) (q : Eqpt) (o0 : String)
+    (hty : isType "ila" n = true) (hq : eqptsAt t.eqpts n.city = [q]) :
+    eqptIn t n o0 true = some (if q.z = o0 then Name.eqE q.a q.z else Name.eqW q.a q.z) ∧
+    eqptIn t n o0 false = some (if q.z = o0 then Name.eqW q.a q.z else Name.eqE q.a q.z) := by
+  have hty' : (lower n.ntype == "ila") = true := hty
+  have h1 : (lower n.ntype == "roadm") = false := by
+    rw [beq_iff_eq] at hty'; rw [hty']; decide
+  have h2 : (lower n.ntype == "fused") = false := by
+    rw [beq_iff_eq] at hty'; rw [hty']; decide
+  constructor <;>
+  · unfold eqptIn
+    simp only [hq, h1, h2, hty', List.isEmpty_cons, Bool.not_false, if_true, Bool.false_eq_true, if_false, ilaLoop]
+    by_cases hz : q.z = o0 <;> simp [hz]
+
+/-- **ILA site: each Eqpt side lands on the amplifier facing the named neighbour.**  At an ILA site
+`c` with neighbours `o0, o1` (Links order) and the single Eqpt row `q = (c, Z)`, `Z ∈ {o0, o1}`:
+the row's east element is followed by the fibre towards `Z`, and the fibre coming from `Z` is
+followed by the row's west element. -/
+theorem eqpt_faces_neighbour_ila (t : Table) (n : Node) (q : Eqpt) (o0 o1 : String) (l : List (Name × Name))
+    (a0 b1 a1 b0 : Name)
+    (hty : isType "ila" n = true) (hq : eqptsAt t.eqpts n.city = [q])
+    (hnb : neighbours t.links n.city = [o0, o1]) (hne : o0 ≠ o1) (hz : q.z = o0 ∨ q.z = o1)
+    (h00 : fiberLink t.links o0 n.city = .ok a0) (h01 : fiberLink t.links n.city o1 = .ok b1)
+    (h10 : fiberLink t.links o1 n.city = .ok a1) (h11 : fiberLink t.links n.city o0 = .ok b0)
+    (h : connectionsAt t n = .ok l) :
+    let toZ := if q.z = o0 then b0 else b1
+    let fromZ := if q.z = o0 then a0 else a1
+    (Name.eqE q.a q.z, toZ) ∈ l ∧ (fromZ, Name.eqW q.a q.z) ∈ l := by
+  obtain ⟨he, hw⟩ := ila_direction_rule t n q o0 hty hq
+  have hty' : (lower n.ntype == "ila") = true := hty
+  unfold connectionsAt at h
+  simp only [hnb, hty', Bool.true_or, if_true, nth, List.getElem?_cons_zero, List.getElem?_cons_succ,
+    h00, h01, h10, h11, he, hw, bind, Except.bind, pure, Except.pure] at h
+  injection h with h
+  subst h
+  rcases hz with hz | hz
+  · simp [hz, connectEqpt]
+  · have : ¬ q.z = o0 := by rw [hz]; exact fun e => hne e.symm
+    simp [this, connectEqpt]
+
+/-- **ROADM site: the Eqpt row (c, Z) puts its east element between the ROADM and the fibre to Z
+and its west element between the fibre from Z and the ROADM.** -/
+theorem eqpt_faces_neighbour_roadm (t : Table) (n : Node) (q : Eqpt) (l : List (Name × Name)) (fo fi : Name)
+    (hty : isType "roadm" n = true) (hq : q ∈ eqptsAt t.eqpts n.city)
+    (huniq : (eqptsAt t.eqpts n.city).filter (fun e => e.z == q.z) = [q])
+    (hnb : q.z ∈ neighbours t.links n.city)
+    (hfo : fiberLink t.links n.city q.z = .ok fo) (hfi : fiberLink t.links q.z n.city = .ok fi)
+    (h : connectionsAt t n = .ok l) :
+    (Name.roadm n.city, Name.eqE q.a q.z) ∈ l ∧ (Name.eqE q.a q.z, fo) ∈ l ∧
+    (fi, Name.eqW q.a q.z) ∈ l ∧ (Name.eqW q.a q.z, Name.roadm n.city) ∈ l := by
+  have hty' : (lower n.ntype == "roadm") = true := hty
+  have h1 : (lower n.ntype == "ila") = false := by
+    rw [beq_iff_eq] at hty'; rw [hty']; decide
+  have h2 : (lower n.ntype == "fused") = false := by
+    rw [beq_iff_eq] at hty'; rw [hty']; decide
+  have hne : (eqptsAt t.eqpts n.city).isEmpty = false := by
+    cases hh : eqptsAt t.eqpts n.city with
+    | nil => rw [hh] at hq; cases hq
+    | cons _ _ => rfl
+  have hin : ∀ east, eqptIn t n q.z east = some (if east then Name.eqE q.a q.z else Name.eqW q.a q.z) := by
+    intro east
+    unfold eqptIn
+    simp only [hne, h2, hty', huniq, Bool.not_false, if_true, Bool.false_eq_true, if_false,
+      List.getLast?_singleton, Option.map_some]
+  unfold connectionsAt at h
+  simp only [h1, h2, hty', Bool.or_self, Bool.false_eq_true, if_false, if_true, bind_ok, pure_ok] at h
+  obtain ⟨parts, hp, rfl⟩ := h
+  obtain ⟨part, hpart, hf⟩ := mapM_ok_mem _ _ _ hp q.z hnb
+  simp only [hfo, hfi, hin, bind, Except.bind, pure, Except.pure, if_true, Bool.false_eq_true, if_false,
+    Except.ok.injEq] at hf
+  subst hf
+  have hsub : ∀ c, c ∈ connectEqpt (Name.roadm n.city) (some (Name.eqE q.a q.z)) fo ++
+      connectEqpt fi (some (Name.eqW q.a q.z)) (Name.roadm n.city) → c ∈ parts.flatten :=
+    fun c hc => List.mem_flatten.2 ⟨_, hpart, hc⟩
+  refine ⟨hsub _ ?_, hsub _ ?_, hsub _ ?_, hsub _ ?_⟩ <;> simp [connectEqpt]
+
+/-! ### unique names -/
+
+theorem city_fixed (links : List Link) (n : Node) : (correctType links n).city = n.city := by
+  unfold correctType; split <;> rfl
+
+theorem fixedNodes_cities (t : Table) : (fixedNodes t).map (·.city) = cities t.nodes := by
+  simp [fixedNodes, cities, List.map_map, Function.comp_def, city_fixed]
+
+/-- **names are unique** (structured names): in a converted workbook without self-loop rows no two
+elements carry the same name.  The rendering of names to uid strings is injective as long as city
+names and cable ids do not contain the separators (checked by the monitor on every run); that part is
+not proved, hence `_partial` in the evidence. -/
+theorem names_unique (t0 : Table) (o : Out) (h : convert t0 = .ok o) (hself : ∀ l ∈ t0.links, l.a ≠ l.z) :
+    (o.elements.map (·.name)).Nodup := by
+  obtain ⟨re, ef, wf, ee, we, pc, hs, hre, hef, hwf, hee, hwe, _, hel, _⟩ := convert_ok t0 o h
+  have hv := (sanity_ok_iff t0).1 hs
+  simp only [Violates, not_or, Bool.not_eq_true] at hv
+  obtain ⟨v1, _, v3, _, _, _, v7, _⟩ := hv
+  have hcity : ((fixedNodes t0).map (·.city)).Nodup := by
+    rw [fixedNodes_cities]
+    simpa [badDuplicateCity] using v1
+  have hlinks : t0.links.Pairwise (fun l1 l2 => sameLink l1 l2 = false) := by
+    simpa [badDuplicateLink, hasDuplicateLink] using v3
+  have heq : t0.eqpts.Pairwise (fun e1 e2 => (e1.a == e2.a && e1.z == e2.z) = false) := by
+    simpa [badDuplicateEqpt, hasDuplicateEqpt] using v7
+  -- the names of the blocks built with mapM
+  have nre : re.map (·.name) = ((fixedNodes t0).filter (isType "roadm")).map (fun n => Name.roadm n.city) :=
+    mapM_ok_map _ _ _ (fun n y hy => roadmElem_name _ _ _ hy) _ _ hre
+  have nef : ef.map (·.name) = t0.links.map (fun l => Name.fiber l.a l.z l.east.cable) :=
+    mapM_ok_map _ _ _ (fun l y hy => by
+      simp only [bind_ok] at hy
+      obtain ⟨_, _, _, _, hy⟩ := hy
+      exact fiberElem_name _ _ _ _ _ _ hy) _ _ hef
+  have nwf : wf.map (·.name) = t0.links.map (fun l => Name.fiber l.z l.a l.west.cable) :=
+    mapM_ok_map _ _ _ (fun l y hy => by
+      simp only [bind_ok] at hy
+      obtain ⟨_, _, _, _, hy⟩ := hy
+      exact fiberElem_name _ _ _ _ _ _ hy) _ _ hwf
+  have nee : ee.map (·.name) = t0.eqpts.map (fun q => Name.eqE q.a q.z) :=
+    mapM_ok_map _ _ _ (fun q y hy => by
+      simp only [bind_ok, pure_ok] at hy
+      obtain ⟨_, _, rfl⟩ := hy
+      unfold eastEqptElem; rfl) _ _ hee
+  have nwe : we.map (·.name) = t0.eqpts.map (fun q => Name.eqW q.a q.z) :=
+    mapM_ok_map _ _ _ (fun q y hy => by
+      simp only [bind_ok, pure_ok] at hy
+      obtain ⟨_, _, rfl⟩ := hy
+      unfold westEqptElem; rfl) _ _ hwe
+  -- nodup of a block that names the cities of a sublist of the nodes
+  have hsub : ∀ (P : Node → Bool) (c : String → Name), (∀ a b, c a = c b → a = b) →
+      (((fixedNodes t0).filter P).map (fun n => c n.city)).Nodup := by
+    intro P c hc
+    have h1 : (((fixedNodes t0).filter P).map (·.city)).Nodup :=
+      List.Nodup.sublist (List.Sublist.map _ List.filter_sublist) hcity
+    have := List.Nodup.map (f := c) (fun a b hab => hc a b hab) h1
+    simpa [List.map_map, Function.comp_def] using this
+  have hfE : (t0.links.map (fun l => Name.fiber l.a l.z l.east.cable)).Nodup := by
+    rw [List.Nodup, List.pairwise_map]
+    refine hlinks.imp ?_
+    intro a b hab heq'
+    simp only [Name.fiber.injEq] at heq'
+    simp [sameLink, heq'.1, heq'.2.1] at hab
+  have hfW : (t0.links.map (fun l => Name.fiber l.z l.a l.west.cable)).Nodup := by
+    rw [List.Nodup, List.pairwise_map]
+    refine hlinks.imp ?_
+    intro a b hab heq'
+    simp only [Name.fiber.injEq] at heq'
+    simp [sameLink, heq'.1, heq'.2.1] at hab
+  have hEW : ∀ a ∈ t0.links.map (fun l => Name.fiber l.a l.z l.east.cable),
+      ∀ b ∈ t0.links.map (fun l => Name.fiber l.z l.a l.west.cable), a ≠ b := by
+    intro a ha b hb hab
+    obtain ⟨l1, hl1, rfl⟩ := List.mem_map.1 ha
+    obtain ⟨l2, hl2, rfl⟩ := List.mem_map.1 hb
+    simp only [Name.fiber.injEq] at hab
+    obtain ⟨e1, e2, _⟩ := hab
+    -- l1 and l2 join the same two cities in opposite orientation
+    by_cases h12 : l1 = l2
+    · subst h12; exact hself l1 hl1 e1
+    · have hsym : sameLink l1 l2 = true := by simp [sameLink, e1, e2]
+      have hsym' : sameLink l2 l1 = true := by simp [sameLink, e1, e2]
+      have hsymm : Std.Symm (fun l1 l2 : Link => sameLink l1 l2 = false) := by
+        constructor
+        intro x y hxy
+        simp only [sameLink, Bool.or_eq_false_iff, Bool.and_eq_false_iff, beq_eq_false_iff_ne] at hxy ⊢
+        constructor
+        · rcases hxy.1 with h | h
+          · left; exact fun e => h e.symm
+          · right; exact fun e => h e.symm
+        · rcases hxy.2 with h | h
+          · right; exact fun e => h e.symm
+          · left; exact fun e => h e.symm
+      have := List.Pairwise.forall (R := fun l1 l2 : Link => sameLink l1 l2 = false) hlinks hl1 hl2 h12
+      rw [hsym] at this; cases this
+  have hqE : (t0.eqpts.map (fun q => Name.eqE q.a q.z)).Nodup := by
+    rw [List.Nodup, List.pairwise_map]
+    refine heq.imp ?_
+    intro a b hab heq'
+    simp only [Name.eqE.injEq] at heq'
+    simp [heq'.1, heq'.2] at hab
+  have hqW : (t0.eqpts.map (fun q => Name.eqW q.a q.z)).Nodup := by
+    rw [List.Nodup, List.pairwise_map]
+    refine heq.imp ?_
+    intro a b hab heq'
+    simp only [Name.eqW.injEq] at heq'
+    simp [heq'.1, heq'.2] at hab
+  rw [hel]
+  simp only [List.map_append, List.map_map, nre, nef, nwf, nee, nwe]
+  simp only [List.nodup_append, List.mem_append, List.mem_map, Function.comp_def, simpleElem]
+  refine ⟨⟨⟨⟨⟨⟨⟨⟨⟨?_, ?_, ?_⟩, ?_, ?_⟩, ?_, ?_⟩, ?_, ?_⟩, ?_, ?_⟩, ?_, ?_⟩, ?_, ?_⟩, ?_, ?_⟩, ?_, ?_⟩
+  all_goals first
+    | exact hsub _ _ (fun a b hab => by injection hab)
+    | exact hfE
+    | exact hfW
+    | exact hqE
+    | exact hqW
+    | (intro a ha b hb hab
+       rw [← hab] at hb
+       obtain ⟨y, hy, rfl⟩ := hb
+       first
+         | (simp at ha; done)
+         | (simp at ha
+            obtain ⟨x, hx, e1, e2, e3⟩ := ha
+            exact hEW _ (List.mem_map.2 ⟨x, hx, rfl⟩) _ (List.mem_map.2 ⟨y, hy, rfl⟩) (by simp [e1, e2, e3])))
+
+/-! ### services -/
+
+/-- **units**: GHz → Hz and Gbit/s → bit/s multiply by 10⁹; dBm → W is `10^(p/10)·10⁻³`, i.e.
+`dbm2watt`, strictly increasing and positive -/
+theorem request_units (x : ℝ) :
+    ghz2hz x = x * 1000000000 ∧ gbps2bps x = x * 1000000000 ∧ dbm2w x = dbm2watt x ∧ 0 < dbm2w x := by
+  refine ⟨by simp [ghz2hz], by simp [gbps2bps], ?_, ?_⟩
+  · simp only [dbm2w, dbm2watt, Nat.cast_one, Nat.cast_ofNat]; ring
+  · simp only [dbm2w, Nat.cast_one, Nat.cast_ofNat]
+    have := db2lin_pos x
+    positivity
+
+theorem request_power_monotone (x y : ℝ) (h : x < y) : dbm2w x < dbm2w y := by
+  simp only [dbm2w, Nat.cast_one, Nat.cast_ofNat]
+  have := (db2lin_lt_iff x y).2 h
+  have h3 : (0 : ℝ) < 1 / 1000 := by norm_num
+  exact mul_lt_mul_of_pos_right this h3
+
+/-- **one disjunction group per 'disjoint from' entry**: a request element produces a
+synchronisation vector exactly when its disjointness list is not empty, and the vector names the
+request itself followed by every listed request, in order. -/
+theorem sync_vector_per_disjoint_entry (e : ReqElem) :
+    (pathSync e = none ↔ e.disjointFrom = []) ∧
+    (e.disjointFrom ≠ [] → pathSync e = some (.obj [("synchronization-id", e.requestId),
+      ("svec", .obj [("relaxable", .bool false), ("disjointness", .str "node link"),
+        ("request-id-number", .arr (e.requestId :: e.disjointFrom.map J.str))])])) := by
+  constructor
+  · cases hd : e.disjointFrom <;> simp [pathSync, hd]
+  · intro h
+    cases hd : e.disjointFrom with
+    | nil => exact absurd hd h
+    | cons x xs => simp [pathSync, hd]
+
+/-- the request is between the named sites' transceivers, whatever the other cells say -/
+theorem request_endpoints (r : Request) (modes : Option (List String)) (bidir : Bool) (e : ReqElem)
+    (h : mkReqElem r modes bidir = .ok e) :
+    e.source = s!"trx {asStr r.source}" ∧ e.destination = s!"trx {asStr r.destination}" ∧ e.bidir = bidir ∧
+    e.loose = (if r.isLoose then "LOOSE" else "STRICT") := by
+  unfold mkReqElem at h
+  simp only [bind_ok, pure_ok] at h
+  obtain ⟨_, _, _, _, _, _, _, _, _, _, _, _, _, _, rfl⟩ := h
+  exact ⟨rfl, rfl, rfl, rfl⟩
+
+end Gnpy.Xls
